@@ -124,7 +124,8 @@ Qed.
 
 Theorem write_scalar M t : rust_strings M = true -> write M = Ok t -> scalar_only t = true.
 Proof.
-  intros Hr H. unfold write in H. destruct (all_names_scalar M) eqn:Ha; [|discriminate]. injection H as <-.
+  intros Hr H. unfold write in H. destruct (writable M) eqn:Hwr; [|discriminate]. injection H as <-.
+  unfold writable in Hwr. apply andb_true_iff in Hwr. destruct Hwr as [_ Ha].
   unfold rust_strings in Hr. apply andb_true_iff in Hr. destruct Hr as [Hr Hcs].
   apply andb_true_iff in Hr. destruct Hr as [Hns Hd].
   change (scalar_only (unlines (write_lines M)) = true).
